@@ -197,6 +197,31 @@ def gen_weights(kind, r):
     raise ValueError(kind)
 
 
+_jit = {}
+
+
+def jitted(kind, cfg, build, fn):
+    """(F, J) compiled once per (kind, shape): F(params, z) and its Jacobian w.r.t. z, with the module's inexact leaves as an
+    argument (so that replacing the raw weights does not recompile) and everything else -- masks, wrappers, activation --
+    closed over from a freshly constructed real object.  fn(module, z) evaluates the real methods."""
+    s = _setup()
+    eqx, jax = s["eqx"], s["jax"]
+    key = (kind,) + tuple(sorted((k, str(v)) for k, v in cfg.items()))
+    if key not in _jit:
+        _, static = eqx.partition(build(cfg), eqx.is_inexact_array)
+
+        def F(params, z):
+            return fn(eqx.combine(params, static), z)
+
+        _jit[key] = (jax.jit(F), jax.jit(jax.jacobian(F, argnums=1)))
+    return _jit[key]
+
+
+def leaves_of(m):
+    s = _setup()
+    return s["eqx"].filter(m, s["eqx"].is_inexact_array)
+
+
 # ----------------------------------------------------------------------------------------------------
 # unit 1: the mask helpers
 # ----------------------------------------------------------------------------------------------------
@@ -204,20 +229,21 @@ def run_mask_helpers(ctx):
     s = _setup()
     jnp, fm = s["jnp"], s["fmasks"]
     u = ctx.unit("mask-helpers", "rank_based_mask / block_diag_mask / block_tril_mask vs the model and vs their documented closed "
-                                 "forms; block shapes 1..4 x 1..4 (5 thorough), 1..4 blocks, offsets -2..2, rank vectors of "
-                                 "length 0..6 with repeated and negative ranks; non-trivial = the mask has a true and a false entry")
+                                 "forms; block shapes 1..3 x 1..3 (1..5 thorough), 1..3 (4) blocks, offsets -2..2, rank vectors of "
+                                 "length 0..4 (6) with repeated and negative ranks; non-trivial = the mask has a true and a false entry")
     cases, reqs = [], []
     r = ctx.rng
-    B = 4 if ctx.quick else 5
-    for bh, bw, n in itertools.product(range(1, B + 1), range(1, B + 1), range(1, 5)):
+    B, N = (3, 3) if ctx.quick else (5, 4)
+    for bh, bw, n in itertools.product(range(1, B + 1), range(1, B + 1), range(1, N + 1)):
         cases.append(("bdiag", bh, bw, n))
         reqs.append(f"bdiag {bh} {bw} {n}")
-        for k in ((0, -1, 1) if ctx.quick and (bh > 2 or bw > 2) else (-2, -1, 0, 1, 2)):
+        for k in ((0,) if ctx.quick and (bh > 2 or bw > 2) else (0, -1, 1) if ctx.quick else (-2, -1, 0, 1, 2)):
             cases.append(("btril", bh, bw, n, k))
             reqs.append(f"btril {bh} {bw} {n} {k}")
-    for _ in range(150 if ctx.quick else 1500):
-        a = [int(v) for v in r.integers(-2, 6, size=int(r.integers(0, 7)))]
-        b = [int(v) for v in r.integers(-2, 6, size=int(r.integers(0, 7)))]
+    L = 5 if ctx.quick else 7
+    for _ in range(60 if ctx.quick else 1500):
+        a = [int(v) for v in r.integers(-2, 6, size=int(r.integers(0, L)))]
+        b = [int(v) for v in r.integers(-2, 6, size=int(r.integers(0, L)))]
         for eq in (False, True):
             cases.append(("rank", a, b, eq))
             reqs.append(f"rank {ilist(a)} {ilist(b)} {int(eq)}")
@@ -285,22 +311,33 @@ def maf_masks_of(m):
     return declared, effective
 
 
+def maf_fn(cfg):
+    s = _setup()
+    jnp, unwrap = s["jnp"], s["unwrap"]
+    dim, cd = cfg["dim"], cfg["cond"]
+
+    def fn(m, z):
+        xx, cc = z[:dim], (None if cd is None else z[dim:])
+        nn_in = xx if cc is None else jnp.hstack((xx, cc))
+        return jnp.concatenate([unwrap(m).masked_autoregressive_mlp(nn_in), m.transform(xx, cc)])
+
+    return fn
+
+
 def maf_jacobians(m, cfg, x, c):
     """dependency patterns observed on the implementation: parameters of coordinate i vs (x, c); y_i vs (x, c)."""
     s = _setup()
-    jax, jnp, unwrap = s["jax"], s["jnp"], s["unwrap"]
+    jnp = s["jnp"]
     dim, cd = cfg["dim"], cfg["cond"]
-    um = unwrap(m)
-
-    def F(z):
-        xx, cc = z[:dim], (None if cd is None else z[dim:])
-        nn_in = xx if cc is None else jnp.hstack((xx, cc))
-        return jnp.concatenate([um.masked_autoregressive_mlp(nn_in), m.transform(xx, cc)])
-
+    Fj, Jj = jitted("maf", cfg, maf_build, maf_fn(cfg))
+    params = leaves_of(m)
+    F = lambda zz: Fj(params, zz)
     z = jnp.asarray(np.concatenate([x, c]) if cd is not None else x)
-    J = np.asarray(jax.jacobian(F)(z))
+    J = np.asarray(Jj(params, z))
     npar = (J.shape[0] - dim) // dim
     Jp = J[: dim * npar].reshape(dim, npar, -1)
+    if not np.isfinite(J).all():
+        raise FloatingPointError("non-finite Jacobian")   # outside the premise (finite values); callers skip the case
     return (np.abs(Jp) > 0).any(axis=1), np.abs(J[dim * npar:]) > 0, F, z, npar
 
 
@@ -325,6 +362,8 @@ def maf_perturb_oracle(F, z, dim, npar, r):
     z2[t:dim] = r.normal(0.0, 30.0, size=dim - t)
     a, b = np.asarray(F(z)), np.asarray(F(jnp.asarray(z2)))
     errs = []
+    if not (np.isfinite(a).all() and np.isfinite(b).all()):
+        return errs, t, z2.tolist()   # non-finite values: outside the premise of the property (0*inf = NaN)
     if not np.array_equal(a[: (t + 1) * npar], b[: (t + 1) * npar]):
         i = int(np.argmax(a[: (t + 1) * npar] != b[: (t + 1) * npar])) // npar
         errs.append(f"forbidden-parameter-dependence|the transformer parameters of coordinate {i} change when only x_{t}.. change")
@@ -349,10 +388,10 @@ def maf_check_dependence(ctx, u, cfg, weights, sub, mout):
     s = _setup()
     r = np.random.default_rng(sub)
     m = maf_build(cfg, key=sub % 1000)
-    if weights == "trained":      # one large gradient step on all raw parameters, starting from random weights
+    if weights == "trained":      # a real gradient step on ALL raw parameters (training cannot un-mask), from N(0,1) weights
         eqx, jax, jnp = s["eqx"], s["jax"], s["jnp"]
-        m = replace_leaves(m, gen_weights("random", r))
-        params, static = eqx.partition(m, eqx.is_inexact_array)
+        m0 = replace_leaves(m, lambda l: r.normal(0.0, 1.0, size=l.shape))
+        params, static = eqx.partition(m0, eqx.is_inexact_array)
         xs, cs = maf_case_inputs(cfg, r, False)
 
         def loss(p):
@@ -361,12 +400,18 @@ def maf_check_dependence(ctx, u, cfg, weights, sub, mout):
             return jnp.sum(jnp.tanh(y)) + 0.1 * jnp.tanh(ld)
 
         g = jax.grad(loss)(params)
-        params = jax.tree_util.tree_map(lambda p_, g_: p_ - 7.0 * g_ - 0.3, params, g)
+        params = jax.tree_util.tree_map(lambda p_, g_: p_ - 3.0 * g_ - 0.3, params, g)
         m = eqx.combine(params, static)
+        if not all(bool(np.isfinite(np.asarray(l)).all()) for l in jax.tree_util.tree_leaves(params)):
+            m = m0   # non-finite update: outside the premise (finite weights)
     else:
         m = replace_leaves(m, gen_weights(weights, r))
     x, c = maf_case_inputs(cfg, r, weights == "positive")
-    dep_p, dep_y, F, z, npar = maf_jacobians(m, cfg, x, c)
+    try:
+        dep_p, dep_y, F, z, npar = maf_jacobians(m, cfg, x, c)
+    except FloatingPointError:
+        ctx.notes.append(f"maf-dependence: non-finite Jacobian for {cfg} / {weights} / {sub}: case skipped (premise: finite values)")
+        return True
     mat, _ = parse_bmats(mout.split())
     mp, my = mat(), mat()
     dim = cfg["dim"]
@@ -382,8 +427,8 @@ def maf_check_dependence(ctx, u, cfg, weights, sub, mout):
             for j in range(i):
                 if not dep_p[i, j]:
                     errs.append(f"missing-dependence|width {cfg['width']} >= threshold but the parameters of coordinate {i} do not depend on x_{j} (all-positive weights)")
-        if cfg["cond"] and not dep_p[:, dim:].all():
-            errs.append("missing-condition-dependence|a condition entry does not reach some coordinate's parameters (all-positive weights)")
+    if complete and cfg["cond"] and not dep_p[:, dim:].all():   # "freely on the condition": needs one hidden unit only
+        errs.append("missing-condition-dependence|a condition entry does not reach some coordinate's parameters (all-positive weights)")
     cj = dict(kind="maf-dependence", cfg=cfg, weights=weights, sub=int(sub), z=[float(v) for v in np.asarray(z)], perturbed_from=t, z2=z2)
     u.count(cj, nontrivial=bool(dep_p.any() or dim == 1), tag=f"{weights}/{'cond' if cfg['cond'] is not None else 'uncond'}/depth{cfg['depth']}")
     if len(u.hashes) % 60 == 1:
@@ -480,29 +525,38 @@ def close(a, b, tol):
     return bool(np.all((a == b) | (np.abs(a - b) <= tol * np.maximum(1.0, np.abs(b))) | (np.isnan(a) & np.isnan(b))))
 
 
+NPARS = {"affine": 2, "rqs": 8, "loc": 1, "lin2": 2}
+
+
+def maf_shapes(ctx):
+    """Base shapes (dim, cond, width, depth) shared by the three MAF units (JAX compiles once per shape, so the units draw
+    their cases from one list).  thorough: the whole grid dim 1..5 x cond None,1,2,3 x width 1..7 x depth 0..3 plus cond_dim=0."""
+    r = ctx.rng
+    grid = [(d, c, w, dp) for d, c, w, dp in itertools.product(range(1, 6), [None, 1, 2, 3], range(1, 8), range(0, 4))]
+    extra = [(d, 0, w, dp) for d, w, dp in itertools.product([1, 2, 3], [1, 2, 4], [0, 1, 2])]
+    if not ctx.quick:
+        return grid + extra
+    # boundary-directed: dim = 1 (the % 0 case) both ways, width below / at / above the completeness threshold, depth 0
+    must = [(1, None, 3, 1), (1, 2, 2, 2), (1, None, 1, 0), (2, None, 1, 1), (3, None, 1, 2), (3, None, 2, 1), (3, 1, 2, 1), (3, 1, 3, 1),
+            (4, None, 3, 3), (4, 2, 3, 1), (4, 2, 4, 2), (5, None, 4, 1), (5, 3, 5, 2), (5, None, 7, 0), (2, 3, 1, 0), (2, 0, 2, 1), (3, 0, 4, 2),
+            (2, None, 4, 1), (3, None, 3, 1), (3, None, 6, 2), (4, None, 7, 1)]
+    rest = [g for g in grid if g not in must]
+    return must + [rest[i] for i in r.choice(len(rest), size=22, replace=False)]
+
+
 def run_maf(ctx):
     import time
     t0 = time.time()
     r = ctx.rng
-    grid = [dict(dim=d, cond=c, width=w, depth=dp, tr=tr)
-            for d, c, w, dp, tr in itertools.product(range(1, 6), [None, 1, 2, 3], range(1, 8), range(0, 4), ["affine", "rqs"])]
-    extra = [dict(dim=d, cond=0, width=w, depth=dp, tr="affine") for d, w, dp in itertools.product([1, 2, 3], [1, 2, 4], [0, 1, 2])]
+    shapes = maf_shapes(ctx)
+    cfgs = [dict(dim=d, cond=c, width=w, depth=dp) for d, c, w, dp in shapes]
     # ---- masks
     u2 = ctx.unit("maf-masks", "masks inside real MaskedAutoregressive objects (Where.cond and the unwrapped weights with every raw weight "
                                "= 1) vs Model.maf_masks; grid dim 1..5 x cond None,0..3 x width 1..7 x depth 0..3 x transformer Affine "
-                               "(2 parameters) / RationalQuadraticSpline (8); quick: a sampled subset incl. every dim=1 and width<dim case "
-                               "of depth<=1; non-trivial = some mask has a true and a false entry")
-    if ctx.quick:
-        pick = [g for g in grid if (g["dim"] == 1 and g["depth"] <= 1 and g["tr"] == "affine")
-                or (g["width"] < g["dim"] and g["depth"] == 1 and g["tr"] == "affine" and g["cond"] in (None, 2))]
-        rest = [g for g in grid if g not in pick]
-        idx = r.choice(len(rest), size=150, replace=False)
-        sel = pick + [rest[i] for i in idx] + extra[:9]
-    else:
-        sel = grid + extra
-    s = _setup()
-    npars = {"affine": 2, "rqs": 8, "loc": 1, "lin2": 2}
-    outs = ctx.model([f"mafmasks {g['dim']} {cond_tok(g['cond'])} {g['width']} {g['depth']} {npars[g['tr']]}" for g in sel])
+                               "(2 parameters) / RationalQuadraticSpline (8 parameters); quick: 43 shapes incl. dim=1, width below/at/above "
+                               "the completeness threshold, depth 0, cond_dim=0; non-trivial = some mask has a true and a false entry")
+    sel = [dict(g, tr="affine") for g in cfgs] + [dict(g, tr="rqs") for k, g in enumerate(cfgs) if (not ctx.quick) or k % 4 == 0]
+    outs = ctx.model([f"mafmasks {g['dim']} {cond_tok(g['cond'])} {g['width']} {g['depth']} {NPARS[g['tr']]}" for g in sel])
     for g, mo in zip(sel, outs):
         maf_check_masks(ctx, u2, g, mo)
     ctx.notes.append(f"maf-masks: {time.time() - t0:.1f}s")
@@ -512,19 +566,24 @@ def run_maf(ctx):
                                     "every raw inexact leaf (N(0,5^2) both signs / all-positive 0.5+|N| / one large gradient step), vs "
                                     "Model.maf_param_dep and maf_transform_dep (subset; equality for all-positive weights), plus the "
                                     "oracle: strictly-lower / lower triangular patterns and bitwise invariance of parameters and outputs "
-                                    "when later inputs change by N(0,30^2); non-trivial = some dependence exists or dim = 1")
-    n3 = 70 if ctx.quick else 700
-    dgrid = [g for g in grid if g["tr"] == "affine"] + [dict(g, tr="lin2") for g in grid if g["tr"] == "affine" and g["depth"] <= 2]
-    idx = r.choice(len(dgrid), size=min(n3, len(dgrid)), replace=False)
-    dsel = [dgrid[i] for i in idx]
-    rq = [g for g in grid if g["tr"] == "rqs" and g["dim"] <= 3 and g["width"] in (2, 4) and g["depth"] in (0, 2)]
-    dsel += [rq[i] for i in r.choice(len(rq), size=(6 if ctx.quick else 40), replace=False)]
-    dsel += [dict(g, act="tanh") for g in dsel[:: (7 if ctx.quick else 5)]]
+                                    "when later inputs change by N(0,30^2); transformers Affine, a*x+b, RationalQuadraticSpline; relu and "
+                                    "tanh activations; non-trivial = some dependence exists or dim = 1")
     cases = []
-    for g in dsel:
-        for weights in (("positive", "random") if r.random() < 0.8 else ("positive", "trained")):
-            cases.append((g, weights, int(r.integers(1, 2 ** 31 - 1))))
-    outs = ctx.model([f"mafdep {g['dim']} {cond_tok(g['cond'])} {g['width']} {g['depth']} {npars[g['tr']]}" for g, _, _ in cases])
+    for k, g in enumerate(cfgs):
+        kinds = [("affine", "positive", None), ("affine", "random", None)]
+        if k % 3 == 1 or not ctx.quick:
+            kinds += [("lin2", "random", None), ("lin2", "positive", None)]
+        if k % 3 == 0:
+            kinds.append(("affine", "trained", None))
+        if k % 4 == 1:
+            kinds += [("lin2", "positive", "tanh"), ("lin2", "random", "tanh")]
+        if k % 8 == 2 and g["dim"] <= 3:
+            kinds += [("rqs", "positive", None), ("rqs", "random", None)]
+        if not ctx.quick:
+            kinds += [("affine", "random", None), ("affine", "positive", None)]
+        for tr, weights, act in kinds:
+            cases.append((dict(g, tr=tr, **({"act": act} if act else {})), weights, int(r.integers(1, 2 ** 31 - 1))))
+    outs = ctx.model([f"mafdep {g['dim']} {cond_tok(g['cond'])} {g['width']} {g['depth']} {NPARS[g['tr']]}" for g, _, _ in cases])
     for (g, weights, sub), mo in zip(cases, outs):
         maf_check_dependence(ctx, u3, g, weights, sub, mo)
     ctx.notes.append(f"maf-dependence: {time.time() - t0:.1f}s")
@@ -534,21 +593,19 @@ def run_maf(ctx):
                                 "Model.maf_params / maf_transform on integer-valued raw weights, biases and inputs with relu (float "
                                 "arithmetic exact: bit-for-bit equality) and on N(0,5^2) weights with tanh (1e-9 relative); the raw "
                                 "UNMASKED weights are sent to the model; non-trivial = some parameter output is non-zero")
-    n4 = 120 if ctx.quick else 1500
-    vgrid = [dict(g, tr=tr) for g in grid if g["tr"] == "affine" for tr in ("loc", "lin2")]
-    idx = r.choice(len(vgrid), size=min(n4, len(vgrid)), replace=False)
     vcases, reqs = [], []
-    for i in idx:
-        g = dict(vgrid[i])
-        kind = "int" if r.random() < 0.75 else "random"
-        if kind == "random":
-            g["act"] = "tanh"
-        sub = int(r.integers(1, 2 ** 31 - 1))
-        ws, bs, x, c, params, y = maf_values_impl(g, sub, kind)
-        npar = npars[g["tr"]]
-        vcases.append((g, kind, sub, params, y, x, c))
-        reqs.append(maf_value_request(g, npar, ws, bs, x, c, False))
-        reqs.append(maf_value_request(g, npar, ws, bs, x, c, True))
+    for k, g0 in enumerate(cfgs):
+        for tr, kind in ([("lin2", "int"), ("lin2", "int")] + ([("loc", "int")] if k % 2 == 0 else []) + ([("lin2", "random")] if k % 4 == 1 else [])
+                         + ([("lin2", "int"), ("loc", "int")] if not ctx.quick else [])):
+            g = dict(g0, tr=tr)
+            if kind == "random":
+                g["act"] = "tanh"
+            sub = int(r.integers(1, 2 ** 31 - 1))
+            ws, bs, x, c, params, y = maf_values_impl(g, sub, kind)
+            npar = NPARS[g["tr"]]
+            vcases.append((g, kind, sub, params, y, x, c))
+            reqs.append(maf_value_request(g, npar, ws, bs, x, c, False))
+            reqs.append(maf_value_request(g, npar, ws, bs, x, c, True))
     outs = ctx.model(reqs)
     for k, (g, kind, sub, params, y, x, c) in enumerate(vcases):
         mp, my = parse_floats(outs[2 * k]), parse_floats(outs[2 * k + 1])
@@ -566,6 +623,7 @@ def run_maf(ctx):
                           case=cj, found_input=False, unit=u4.name, expected=dict(params=mp.tolist(), y=my.tolist()),
                           observed=dict(params=params.tolist(), y=y.tolist()), broken="correspondence maf-values (Model.masked_mlp / maf_transform)",
                           reproducer="cd /verif && ./check C09 --replay <this file>")
+    ctx.notes.append(f"maf-values: {time.time() - t0:.1f}s")
 
 
 # ----------------------------------------------------------------------------------------------------
@@ -590,12 +648,12 @@ def coupling_check(ctx, u, cfg, weights, sub, mdep, mval):
     else:
         x, c = r.normal(0, 2.0, size=dim), r.normal(0, 2.0, size=cd or 0)
 
-    def F(z):
-        return cp.transform(z[:dim], None if cd is None else z[dim:])
-
+    Fj, Jj = jitted("coupling", cfg, coupling_build, lambda mod, zz: mod.transform(zz[:dim], None if cd is None else zz[dim:]))
+    cparams = leaves_of(cp)
+    F = lambda zz: Fj(cparams, zz)
     z = jnp.asarray(np.concatenate([x, c]) if cd is not None else x)
     y = np.asarray(F(z))
-    J = np.asarray(jax.jacobian(F)(z))
+    J = np.asarray(Jj(cparams, z))
     dep = np.abs(J) > 0
     errs = []
     if not np.array_equal(y[:d], x[:d]):
@@ -615,7 +673,8 @@ def coupling_check(ctx, u, cfg, weights, sub, mdep, mval):
         for j in range(d, dim):
             if j != i:
                 z2[j] = r.normal(0, 30.0)
-        if np.asarray(F(jnp.asarray(z2)))[i] != y[i]:
+        yi2 = np.asarray(F(jnp.asarray(z2)))[i]
+        if np.isfinite(yi2) and np.isfinite(y[i]) and yi2 != y[i]:
             errs.append(f"cross-dependence|output {i} changes when only the other transformed coordinates change")
     mat, _ = parse_bmats(mdep.split())
     md = mat()
@@ -663,13 +722,13 @@ def run_coupling(ctx):
                              "0..2; non-trivial = some transformed coordinate depends on the first block")
     grid = [dict(dim=dim, d=d, cond=c, width=w, depth=dp) for dim in range(2, 6) for d in range(0, dim) for c in (None, 1, 2)
             for w in (1, 3) for dp in (0, 1, 2) if not (d == 0 and c is None)]
-    n = 60 if ctx.quick else 600
+    n = 34 if ctx.quick else 600
     idx = r.choice(len(grid), size=min(n, len(grid)), replace=False)
     cases = []
     for i in idx:
         g = grid[i]
-        for weights, tr in (("random", "affine"), ("positive", "affine"), ("int", "lin2" if r.random() < 0.6 else "loc")):
-            if ctx.quick and weights == "random" and r.random() < 0.5:
+        for weights, tr in (("random", "affine"), ("positive", "affine"), ("random", "affine"), ("int", "lin2" if r.random() < 0.6 else "loc")):
+            if ctx.quick and weights == "int" and r.random() < 0.4:
                 continue
             cases.append((dict(g, tr=tr), weights, int(r.integers(1, 2 ** 31 - 1))))
     reqs, spans = [], []
@@ -737,9 +796,10 @@ def bnaf_check(ctx, u, cfg, sub, mout_masks):
                 errs.append(f"diagonal-weight-not-positive|layer {k}: a diagonal-block weight is not strictly positive")
     x = r.normal(0, 2.0, size=dim)
     c = r.normal(0, 2.0, size=cd or 0)
-    cc = None if cd is None else jnp.asarray(c)
-    F = lambda xx: b.transform(xx, cc)
-    J = np.asarray(jax.jacobian(F)(jnp.asarray(x)))
+    Fj, Jj = jitted("bnaf", cfg, bnaf_build, lambda mod, zz: mod.transform(zz[:dim], None if cd is None else zz[dim:]))
+    bparams = leaves_of(b)
+    F = lambda xx: Fj(bparams, jnp.concatenate([xx, jnp.asarray(c)]) if cd is not None else xx)
+    J = np.asarray(Jj(bparams, jnp.asarray(np.concatenate([x, c]) if cd is not None else x)))[:, :dim]
     if np.any(np.triu(J, 1) != 0):
         i, j = map(int, np.argwhere(np.triu(J, 1) != 0)[0])
         errs.append(f"not-lower-triangular|output {i} depends on x_{j} (Jacobian not lower triangular)")
@@ -750,7 +810,7 @@ def bnaf_check(ctx, u, cfg, sub, mout_masks):
     x2 = np.array(x)
     x2[t + 1:] = r.normal(0, 30.0, size=dim - t - 1)
     y, y2 = np.asarray(F(jnp.asarray(x))), np.asarray(F(jnp.asarray(x2)))
-    if not np.array_equal(y[: t + 1], y2[: t + 1]):
+    if np.isfinite(y).all() and np.isfinite(y2).all() and not np.array_equal(y[: t + 1], y2[: t + 1]):
         errs.append(f"not-lower-triangular|an output <= {t} changes when only x_{t + 1}.. change")
     if leaky:  # increasing in x_i (later coordinates changed arbitrarily, earlier ones fixed); non-strict: the increment may round away
         x3 = np.array(x2)
@@ -785,7 +845,7 @@ def run_bnaf(ctx):
                                  "(softplus on diagonal blocks, block-tril Where, weight normalisation; 1e-9), and transform(x, condition) "
                                  "with tanh activation vs Model.bnaf_transform on the unwrapped weights (1e-9); non-trivial = depth >= 1")
     grid = [dict(dim=d, cond=c, depth=dp, bd=bd) for d in range(1, 5) for c in (None, 1, 2) for dp in range(0, 4) for bd in range(1, 5)]
-    n = 45 if ctx.quick else 192
+    n = 26 if ctx.quick else 192
     idx = r.choice(len(grid), size=min(n, len(grid)), replace=False)
     cases = [(dict(grid[i], act=("tanh" if k % 2 == 0 else None)), int(r.integers(1, 2 ** 31 - 1))) for k, i in enumerate(idx)]
     outs = ctx.model([f"bnafmasks {g['dim']} {g['depth']} {g['bd']}" for g, _ in cases])
@@ -856,7 +916,7 @@ def run(ctx):
 def replay(ctx, rep):
     c = rep["case"]
     kind = c.get("kind")
-    npars = {"affine": 2, "rqs": 8, "loc": 1, "lin2": 2}
+    npars = NPARS
     if "fn" in c:  # mask helper
         s = _setup()
         jnp, fm = s["jnp"], s["fmasks"]
